@@ -9,7 +9,7 @@ working tree) and `gcc -E -P -std=c11`, outputs are re-lexed into preprocessing 
 Two-oracle rule: VIOLATION only if spec == gcc and c2m differs; spec != gcc is SPEC-DISAGREES (exit 0, counted).
 Cases the spec classifies Unspecified/undefined/ill-formed (st != "D") are never replayed.
 """
-import collections, hashlib, json, os, re, subprocess, sys, time
+import collections, hashlib, json, os, re, shutil, subprocess, sys, time
 from concurrent.futures import ThreadPoolExecutor
 import vlib
 from vlib import Check, run_tlc, tlc_ok, MachineryError
@@ -358,7 +358,7 @@ def gen_cases(jobs, stats, maxpar=None):
                 kw.update(simulate=max(1, sim // nparts), depth=depth, seed_=vlib.seed() * 1000 + p)
             kws.append(kw)
             owner.append(name)
-    maxpar = maxpar or max(1, vlib.NCPU // 3)
+    maxpar = maxpar or max(1, vlib.NCPU // 2)
     with ThreadPoolExecutor(maxpar) as ex:
         res = list(ex.map(lambda kw: run_tlc(**kw), kws))
     out = collections.OrderedDict((j[0], []) for j in jobs)
@@ -452,6 +452,7 @@ def run(tier, jobs=None, mutate=None):
                        "tokens of every source list are separated by white space (except the variable-spacing stringification jobs): "
                        "c2m -E does not re-insert separators between tokens it prints",
                        "gcc 12 -std=c11 is a conforming second oracle; a case where it disagrees with the spec is never a violation"]
+    shutil.rmtree(os.path.join(WORK, "run-%d" % os.getpid()), ignore_errors=True)
     vlib.log("C09 %s: %d cases replayed (%s), dropped %s, spec-disagrees %d, known-finding cases %s, TLC %.0fs" % (
         tier, total, ", ".join("%s=%d" % (k[6:], v) for k, v in ck.cov.items() if k.startswith("cases_") and not k.startswith("cases_job")),
         {k[8:]: v for k, v in stats.cnt.items() if k.startswith("dropped_")}, stats.cnt["spec_disagrees"], dict(known), t_tlc))
